@@ -105,6 +105,12 @@ CHECKS = {
     design="5/C08",
     note="Trusted: Lean kernel; hash seeds are sampled; which statement orders the implementation can produce is not modelled (the theorems quantify over all orders of independent statements / commuting splits); tensor equality of variants rests on execution over sampled inputs.",
     technique="Lean 4 commutation proofs (partial) + multi-hash-seed compilation differential with Lean definite-assignment validation of every variant and execution on identical inputs"),
+ "C11": dict(
+    category="proof",
+    text="PARTIAL. Lean theorems (Props/C11) on the three tensor-level rewrites metrics mode performs: mem_coiterT / coiterT_perm (the coordinates co-iterated are exactly those present in every participating operand, so Fiber.intersection with the leader moved to the front visits the same coordinates as a & (b & ...), for every operand list), swizzle_comp (the extra swizzle to the merger's initial order followed by the loop-order swizzle is one swizzle), shapes are not part of a tensor's points. Observed on the real compiler: every generated architecture/bindings/format specification (G7 and a convolution + leader-follower family) is compiled in metrics mode and in plain mode and both are executed on identical inputs with inert observer stand-ins: identical tensors, equal to the Einsum's result.",
+    design="5/C11",
+    note="Trusted: Lean kernel; minifiber's reading of Fiber.intersection(style=leader-follower) and its inert Metrics/Traffic/Compute/Format stand-ins; non-interference of observer statements and payload/argument agreement rest on execution over sampled specifications and inputs. Known findings: leader not first factor (payloads swapped), unbound position variable with partitioned index math, eager trace before the lookup that binds the fiber.",
+    technique="Lean 4 proofs of the metrics-mode rewrites (partial) + differential execution metrics-mode vs plain-mode vs dense oracle"),
 }
 
 NOT_YET = {}
